@@ -84,7 +84,7 @@ func c11Closure(c *core.Ctx, r *core.Reporter) {
 		if !ok {
 			return
 		}
-		if b, ok := call.Call.Value.(*ssa.Builtin); !ok || b.Name() != "append" || len(call.Call.Args) != 2 {
+		if b, ok := call.Call.Value.(*ssa.Builtin); !ok || core.N(b) != "append" || len(call.Call.Args) != 2 {
 			return
 		}
 		if sl, ok := call.Type().(*types.Slice); !ok || core.TypeName(sl.Elem()) != "Type" {
@@ -171,7 +171,7 @@ func c11Unique(c *core.Ctx, r *core.Reporter) {
 	okErr := false
 	core.Instrs(fn, func(in ssa.Instruction) {
 		call, ok := in.(*ssa.Call)
-		if !ok || !call.Call.IsInvoke() || call.Call.Method.Name() != "Error" || call.Call.Value != ins.Value {
+		if !ok || !call.Call.IsInvoke() || core.N(call.Call.Method) != "Error" || call.Call.Value != ins.Value {
 			return
 		}
 		if core.InstrDominates(call, ins) {
@@ -208,7 +208,7 @@ func c11Unique(c *core.Ctx, r *core.Reporter) {
 				continue
 			}
 			f := core.CalleeObj(info, call)
-			if f == nil || (f.Name() != "Fields" && f.Name() != "Interfaces" && f.Name() != "PossibleTypes") {
+			if f == nil || (core.N(f) != "Fields" && core.N(f) != "Interfaces" && core.N(f) != "PossibleTypes") {
 				continue
 			}
 			n++
@@ -219,7 +219,7 @@ func c11Unique(c *core.Ctx, r *core.Reporter) {
 				okNext = strings.Contains(s, ".err != nil") || strings.Contains(s, ".Error() != nil")
 			}
 			if !okNext {
-				bad = f.Name()
+				bad = core.N(f)
 			}
 		}
 		return true
@@ -289,7 +289,7 @@ func c11Ctor(c *core.Ctx, r *core.Reporter) {
 					case *ssa.Return:
 						used = true
 					case *ssa.Store:
-						if f := core.FieldOf(x.Addr); f != nil && f.Name() == "err" {
+						if f := core.FieldOf(x.Addr); f != nil && core.N(f) == "err" {
 							used = true
 						}
 					case *ssa.Phi:
@@ -388,7 +388,7 @@ func c11Impl(c *core.Ctx, r *core.Reporter) {
 			return true
 		}
 		f := core.CalleeObj(info, call)
-		if f == nil || f.Name() != "invariantf" || len(call.Args) < 2 {
+		if f == nil || core.N(f) != "invariantf" || len(call.Args) < 2 {
 			return true
 		}
 		cond := core.ExprString(call.Args[0])
@@ -438,7 +438,7 @@ func c11Impl(c *core.Ctx, r *core.Reporter) {
 					return true
 				}
 				fo := core.CalleeObj(pp.TypesInfo, call)
-				if fo == nil || (fo.Name() != "invariantf" && fo.Name() != "invariant") {
+				if fo == nil || (core.N(fo) != "invariantf" && core.N(fo) != "invariant") {
 					return true
 				}
 				if core.ExprString(call.Args[0]) == guard {
@@ -501,7 +501,7 @@ func c11Nil(c *core.Ctx, r *core.Reporter) {
 						init = core.ExprString(as.Rhs[0])
 					}
 				}
-				if strings.Contains(s+init, v.Name()+" != nil") || strings.Contains(s+init, v.Name()+" == nil") {
+				if strings.Contains(s+init, core.N(v)+" != nil") || strings.Contains(s+init, core.N(v)+" == nil") {
 					okNil = true
 				}
 			}
